@@ -168,6 +168,8 @@ def _run_case(mod, sub, case, st, findings, ignored, count=True):
             return None
         if v.signature in ignored:
             return None
+        v.__traceback__ = None   # do not keep frames (and the nutils objects in them) alive
+        v.__context__ = None
         return v
     for l in rec.labels:
         st.labels[sub.name + ':' + l] += 1
